@@ -98,6 +98,12 @@ def rand_mesh(ctx, nd=None, nd_range=(1, 4), min_n=1, n_max=5, periodic=False, s
         if not subregions:
             lo, hi = gen.rand_box(rng, spec.n)
             subregions = {"only": spec.box_region(lo, hi)}
+        if rng.random() < 0.7:
+            # a subregion that is exactly the first / last layer of cells along one axis
+            lo, hi = gen.rand_box(rng, spec.n)
+            j = int(rng.integers(0, nd))
+            lo[j], hi[j] = (0, 1) if rng.random() < 0.7 else (spec.n[j] - 1, spec.n[j])
+            subregions["layer"] = spec.box_region(lo, hi)
     return spec, spec.mesh(subregions=subregions, bc=bc), names, bc
 
 
@@ -250,7 +256,7 @@ def _md(a, b):
 def combination(ctx, i):
     rng = ctx.rng
     periodic = rng.random() < 0.4
-    subs = (i // 5) % 4 == 3
+    subs = (i // 5) % 2 == 1
     spec, mesh, names, bc = rand_mesh(ctx, min_n=1, n_max=5, periodic=periodic, subs=subs)
     nd = spec.nd
     n = tuple(int(k) for k in spec.n)
